@@ -2,6 +2,7 @@
 From Coq Require Import List NArith Bool.
 From FP Require Import Model.Base Model.ItsWords Model.ItsFsm Model.Rdh Model.Payload Model.Scanner Model.Views.
 From FP Require Import Spec.WordLayout Spec.Diagram Spec.DiagramAbs Proofs.Bits Proofs.C19_proofs Proofs.C19_det.
+From FP Require Import Spec.Framing Proofs.C03_proofs Proofs.C19_run.
 From FP Require Gen.Facts.
 Import ListNotations.
 Open Scope N_scope.
@@ -74,6 +75,28 @@ Proof. exact c19_agrees_with_checker. Qed.
 Theorem C19_refuted_batch_format : word_pos 1 0 0 <> word_pos 1 2 0.
 Proof. exact c19_refuted_batch_format. Qed.
 
+(* THE WHOLE INPUT.  Composed with the scanner (C03): for EVERY well-framed input, every filter, payloads loaded or skipped, file or pipe,
+   any packet count (the view works batch by batch): `view rdh` shows exactly one row per selected packet of the chain, in order, with
+   its true offset and the decoded header values; the offsets are the chained byte offsets, each packet inside the input *)
+Theorem C19_view_rdh_whole_input : forall c pkts, Forall wf_pkt pkts ->
+  flat_map view_rdh (so_batches (scan_impl c (serialize pkts))) = map (fun op => rdh_view_row (mk_cdp c op)) (selected c 0 pkts).
+Proof. exact (c19_view_rdh_whole Gen.Facts.cdp_offset_sampled_after Gen.Facts.batch_kept_on_invalid_input eq_refl). Qed.
+Theorem C19_view_rdh_offsets : forall c pkts op, In op (selected c 0 pkts) ->
+  fst op + p_size (snd op) <= total_size pkts /\ c_off (mk_cdp c op) = fst op.
+Proof. exact c19_view_rdh_offsets. Qed.
+(* ... and the two readout-frame views, when every selected packet can be shown (FEE id of a real layer: finding F6; no over-long 0xFF
+   run): per selected packet one RDH row and then the rows of its words, each at offset + 64 + index * slot of its OWN data format;
+   no batch ends the run early *)
+Theorem C19_view_frames_whole_input : forall dv c pkts, Forall wf_pkt pkts -> Forall viewable (map (mk_cdp c) (selected c 0 pkts)) ->
+  let batches := so_batches (scan_impl c (serialize pkts)) in
+  flat_map (fun bt => fst (view_frames dv bt)) batches =
+    flat_map (fun q => frdh_of q :: word_rows dv (rdh_data_format (c_rdh q)) (c_off q) 0 (chunks_of q)) (map (mk_cdp c) (selected c 0 pkts)) /\
+  Forall (fun bt => snd (view_frames dv bt) = VE_done) batches.
+Proof.
+  exact (c19_view_frames_whole Gen.Facts.cdp_offset_sampled_after Gen.Facts.batch_kept_on_invalid_input Gen.Facts.view_word_offsets_use_own_rdh_format
+           eq_refl eq_refl eq_refl).
+Qed.
+
 Print Assumptions C19_rdh_rows.
 Print Assumptions C19_frame_rows.
 Print Assumptions C19_word_rows.
@@ -87,3 +110,6 @@ Print Assumptions C19_rdh_lane_faults.
 Print Assumptions C19_lanes_are_0_to_27.
 Print Assumptions C19_agrees_with_checker.
 Print Assumptions C19_refuted_batch_format.
+Print Assumptions C19_view_rdh_whole_input.
+Print Assumptions C19_view_rdh_offsets.
+Print Assumptions C19_view_frames_whole_input.
